@@ -247,15 +247,19 @@ def rewrite_asserts(body, what, log):
         def txt(rng):
             a, b = rng
             return body[toks[a].start:toks[b - 1].end] if b > a else ''
+        safety = any(toks[k].kind == 'str' and 'consensus safety violation' in toks[k].text for k in range(i + 3, j))
+        fn = 'vassume_safety' if safety else 'vassert'
         if name == 'assert':
-            new = 'vassert(' + txt(args[0]) + ')'
+            new = fn + '(' + txt(args[0]) + ')'
         elif name == 'assert_eq':
-            new = 'vassert((' + txt(args[0]) + ') == (' + txt(args[1]) + '))'
+            new = fn + '((' + txt(args[0]) + ') == (' + txt(args[1]) + '))'
         elif name == 'assert_ne':
-            new = 'vassert((' + txt(args[0]) + ') != (' + txt(args[1]) + '))'
+            new = fn + '((' + txt(args[0]) + ') != (' + txt(args[1]) + '))'
+        elif safety:
+            new = '{ vassume_safety(false); vpanic() }'
         else:
             new = 'vpanic()'
-        log.append({'rule': 'R7-assert-as-obligation', 'in': what,
+        log.append({'rule': 'R7-safety-assert-as-assumption' if safety else 'R7-assert-as-obligation', 'in': what,
                     'text': re.sub(r'\s+', ' ', body[toks[i].start:toks[j].end])[:160], 'to': new[:160]})
         body = body[:toks[i].start] + new + body[toks[j].end:]
     raise LostAnchor(f'{what}: assert rewriting did not terminate')
